@@ -823,10 +823,11 @@ class AbstractInversion:
     def regularization_weights_mapper_dict(self) -> Dict[LinearObj, np.ndarray]:
         regularization_weights_dict = {}
 
-        for index, mapper in enumerate(self.cls_list_from(cls=AbstractMapper)):
-            regularization_weights_dict[mapper] = self.regularization_weights_from(
-                index=index
-            )
+        for index, linear_obj in enumerate(self.linear_obj_list):
+            if isinstance(linear_obj, AbstractMapper):
+                regularization_weights_dict[
+                    linear_obj
+                ] = self.regularization_weights_from(index=index)
 
         return regularization_weights_dict
 
